@@ -65,6 +65,8 @@ where
                 .kill_on_drop(true)
                 .spawn()
                 .map_err(Error::InitFailure)?;
+            #[cfg(feature = "verif-hooks")]
+            crate::verif::event("spawned", process.id() as i64);
             let mut stdin = process.stdin.take().unwrap();
             let mut stdout = process.stdout.take().unwrap();
 
@@ -74,6 +76,8 @@ where
                 .read_async::<HandshakeResponse, _>(Pin::new(&mut stdout))
                 .await?;
             response.result.map_err(Error::HandshakeFailure)?;
+            #[cfg(feature = "verif-hooks")]
+            crate::verif::event("handshake_done", 0);
 
             loop {
                 let request = recv_request.recv().await?;
@@ -81,6 +85,8 @@ where
                 frame
                     .write_async::<MessageRequest<S>, _>(Pin::new(&mut stdin), &request)
                     .await?;
+                #[cfg(feature = "verif-hooks")]
+                crate::verif::event("request_written", 0);
 
                 let interrupt = async {
                     ctrlc.next().await;
@@ -127,10 +133,25 @@ where
                     }
                 };
 
+                #[cfg(feature = "verif-hooks")]
+                crate::verif::event(
+                    "response",
+                    match &response {
+                        Ok(_) => 0,
+                        Err(Error::Panic(_)) => 1,
+                        Err(Error::Crashed) => 2,
+                        Err(Error::Timeout(_)) => 3,
+                        Err(Error::Interrupted) => 4,
+                        Err(_) => 5,
+                    },
+                );
+
                 send_response
                     .send(response)
                     .await
                     .map_err(|_| Error::Send("response to caller"))?;
+                #[cfg(feature = "verif-hooks")]
+                crate::verif::event("delivered", 0);
 
                 if break_out {
                     match process.kill() {
@@ -141,6 +162,8 @@ where
                                 || err.kind() == ErrorKind::InvalidInput => {}
                         Err(err) => return Err(err.into()),
                     };
+                    #[cfg(feature = "verif-hooks")]
+                    crate::verif::event("killed", 0);
                     break;
                 }
             }
